@@ -169,7 +169,7 @@ def c13_case(args):
         res["discharged"] += 1
         load_steps = m.steps
         snap0, brk0 = dict(m.mem), m.brk
-        tmo = 120000 if tier == "quick" else 600000
+        tmo = 240000 if tier == "quick" else 600000
         steps = 0
         reached = set()
 
